@@ -2,9 +2,9 @@
 from vx.unit import Unit
 from vx.extract import C
 
-PROPS = ['C10', 'C01']
+PROPS = ['C10', 'C04', 'C01']
 
-HEADER = 'use vstd::prelude::*;\nuse std::collections::HashMap;\nverus! {\n'
+HEADER = '#![feature(pattern)]\nuse vstd::prelude::*;\nuse std::collections::HashMap;\nverus! {\n'
 FOOTER = '\n} // verus!\nfn main() {}\n'
 
 LOOKUP = ['r is Some <==> is_open(self@, %s)', 'r is Some ==> *r->Some_0 == self@[%s]->Some_0']
@@ -113,10 +113,42 @@ def build(repo, findings):
         C('C10 target-fd', 'r == (match *specified_fd_num { Some(n) => n, None => default_fd(*kind) })'),
     ])
     u.add(oo)
+    # ---- here-string and here-document arms of setup_redirect (R6 block slices)
+    ast.require_text(r'pub struct IoHereDocument \{(?:[^}]|\n)*?pub requires_expansion: bool,(?:[^}]|\n)*?pub doc: Word,', 'projection IoHereDocument')
+    u.prelude('std/str_ops.rs')
+    u.prelude('fds/here_spec.rs')
+    hs = interp.block_slice(r'^\s*ast::IoRedirect::HereString\(fd_num, word\) => \{$',
+                            'fn here_string_arm(shell: &mut Shell, params: &mut ExecutionParameters, fd_num: &Option<ShellFd>, word: &ast2::Word) -> Result<(), error::Error>', 'here_string_arm')
+    hs.r1().r3().resub(r'\n\}$', '\n    Ok(())\n}', 'R6', 'wrapper epilogue `Ok(())` (what the enclosing function returns after the match)', count=1)
+    hs.at_body_start('here_string_arm', 'broadcast use {axiom_str_starts_with_char, axiom_str_ends_with_char};')
+    hs.sig(ret='res', ensures=[
+        C('C10,C04 here-string-is-value-plus-newline', '''res is Ok ==> ({
+    let fd = match *fd_num { Some(n) => n, None => 0 };
+    &&& final(params).open_files@.contains_key(fd) && final(params).open_files@[fd] is Some
+    &&& final(params).open_files@[fd]->Some_0.contents() == expand_word_spec(*word, *old(shell)).push('\\n')
+    &&& final(params).open_files@ == old(params).open_files@.insert(fd, final(params).open_files@[fd])
+})'''),
+        C('C10 here-string-error-leaves-table', 'res is Err ==> final(params).open_files@ == old(params).open_files@'),
+    ])
+    u.add(hs)
+    hd = interp.block_slice(r'^\s*ast::IoRedirect::HereDocument\(fd_num, io_here\) => \{$',
+                            'fn here_document_arm(shell: &mut Shell, params: &mut ExecutionParameters, fd_num: &Option<ShellFd>, io_here: &ast2::IoHereDocument) -> Result<(), error::Error>', 'here_document_arm')
+    hd.r1().r3().resub(r'\n\}$', '\n    Ok(())\n}', 'R6', 'wrapper epilogue `Ok(())`', count=1)
+    hd.sig(ret='res', ensures=[
+        C('C10 here-document-body-byte-exact', '''res is Ok ==> ({
+    let fd = match *fd_num { Some(n) => n, None => 0 };
+    &&& final(params).open_files@.contains_key(fd) && final(params).open_files@[fd] is Some
+    &&& final(params).open_files@[fd]->Some_0.contents() == (if io_here.requires_expansion { expand_heredoc_spec(io_here.doc, *old(shell)) } else { io_here.doc.flat() })
+    &&& final(params).open_files@ == old(params).open_files@.insert(fd, final(params).open_files@[fd])
+})'''),
+    ])
+    u.add(hd)
     u.raw(FOOTER)
-    u.assume('assume_specification', 'Option::map_or(d, f) is d on None and f(x) on Some(x) (std documented behaviour)')
+    u.assume('axiom', 'str::starts_with / ends_with at a char pattern mean first / last character equals it (std documented behaviour)')
+    u.assume('assume_specification', 'str::starts_with / ends_with (generic Pattern) are uninterpreted functions of text and pattern; Option::map_or(d, f) is d on None and f(x) on Some(x) (std documented behaviour)')
     u.assume('external_body', 'OpenFile and error::Error are opaque; From<ErrorKind> for Error is a stub; OpenFile::clone returns an equal value (it dups the descriptor); Shell::persistent_open_files is a view of persistent()')
-    u.assume('uninterp', 'Shell::persistent, Shell::opts, PathBuf::is_regular, Error::is_unimplemented')
+    u.assume('external_body', 'basic_expand_word / basic_expand_heredoc_word (uninterpreted results) and setup_open_file_with_contents (a pipe holding exactly the text) are stubs; the here-document tokenizer (delimiter recognition, tab stripping) is NOT verified')
+    u.assume('uninterp', 'expand_word_spec, expand_heredoc_spec, OpenFile::contents, Word::flat, Shell::persistent, Shell::opts, PathBuf::is_regular, Error::is_unimplemented')
     u.assume('model', 'std::fs::OpenOptions is replaced by a struct of the six flags with setters that set exactly one flag (std documented behaviour); `std::fs::File::options()` starts with all flags false (precondition of the slice)')
     u.assume('stub', 'the rest of setup_redirect (expansion, open(2), left-to-right application, here-documents) is NOT under contract')
     u.expected_min_fns = 9
